@@ -26,7 +26,8 @@ RULE = ("exhaustive grid: settings {None, ints -1..4, (a,b) with a,b in {None,-1
         "1-/3-tuples, dict} x 3 kinds x 3 setter forms (attribute, set_*_cardinality, constructor keyword) "
         "x 2 previous settings; every normal-form cardinality x child counts 0..5 x stand-alone/in-document "
         "validation; add/remove histories (thorough: longer and more) with a twin without cardinality; every "
-        "normal-form cardinality x 3 kinds x {XML, JSON, YAML}; non-trivial = case whose setting is not None; "
+        "normal-form cardinality x 3 kinds x {XML, JSON, YAML}; populations of 2-6 objects with one cardinality in one document "
+        "(content-equal twins included) validated in one run; non-trivial = case whose setting is not None; "
         "distinct = hash of (kind, form, previous, setting) / (kind, cardinality, count) / (kind, cardinality, "
         "format)")
 ASSUMPTIONS = ["falsy scalars ('' , 0, 0.0, [], {}) count as 'unset' (don't-care zone: may be accepted as unset or "
@@ -236,6 +237,42 @@ def check_report(ctx, kind, card, n, in_doc):
             rec.violation("report/rank-not-warning", "rank %r" % e.rank, case)
 
 
+def check_population(ctx, kind, card, counts):
+    """Several objects with the same cardinality in one document (content-equal twins below different parents
+    included), one validation run: each object gets its own warning exactly when its own count is out of range."""
+    import odml
+    from odml.validation import Validation
+    rec = ctx.rec
+    name, _, issue_no = KINDS[kind]
+    case = {"part": "population", "kind": kind, "card": enc(card), "counts": list(counts)}
+    rec.evaluation()
+    rec.case(core.h(case), True)
+    doc = odml.Document()
+    objs = []
+    for i, n in enumerate(counts):
+        holder = odml.Section("holder%d" % i, "h", parent=doc)
+        o = make(kind, card)
+        if getattr(o, name) != card:
+            return
+        o.parent = holder
+        set_count(o, kind, n)
+        objs.append(o)
+    errors = Validation(doc).errors
+    rec.monitor("report")
+    for o, n in zip(objs, counts):
+        issues = [e for e in errors if e.obj is o and getattr(e.validation_id, "value", None) == issue_no]
+        exp = cm.violated(card, n)
+        twin = "twin" if list(counts).count(n) > 1 else "single"
+        rec.count("report", "population:%s/%s/%s" % (kind, twin, "violated" if exp else "met"))
+        if exp and not issues:
+            rec.violation("report/missing:population-%s" % twin, "%s card %r counts %r: object %d (count %d) has no issue %d" % (
+                kind, card, counts, objs.index(o), n, issue_no), case)
+        if not exp and issues:
+            rec.violation("report/spurious:population-%s" % twin, "%s card %r counts %r: %r" % (kind, card, counts, issues[0].msg), case)
+        if len(issues) > 1:
+            rec.violation("report/duplicated:population-%s" % twin, "%d issues on one object" % len(issues), case)
+
+
 def check_history(ctx, kind, card, steps, rng, hid):
     """Add/remove children after the cardinality was set: report exact after every step, never enforced."""
     import odml
@@ -419,6 +456,11 @@ def run(ctx):
                     i += 1
                     if ctx.mine(i):
                         check_persist(ctx, kind, card, fmt, sdir)
+                if card is not None:
+                    for counts in [(n, n) for n in range(6)] + [(0, 5, 0), (1, 2, 3), (5, 5, 5, 0), (0, 1, 2, 3, 4, 5)]:
+                        i += 1
+                        if ctx.mine(i):
+                            check_population(ctx, kind, card, counts)
         if ctx.shard == 0:
             check_parsers(ctx)
         nh = ctx.pick(1500, 300000)
@@ -449,6 +491,8 @@ def replay(case, ctx):
             check_setter(ctx, case["kind"], case["form"], dec(case["prev"]), dec(case["input"]), 0)
         elif part == "report":
             check_report(ctx, case["kind"], dec(case["card"]), case["count"], case["in_doc"])
+        elif part == "population":
+            check_population(ctx, case["kind"], dec(case["card"]), case["counts"])
         elif part == "history":
             check_history(ctx, case["kind"], dec(case["card"]), [tuple(s) for s in case["steps"]], None, 0)
         elif part == "persist":
